@@ -38,8 +38,21 @@ def assignments(case, leaf_bounds):
     ids = sorted(leaf_bounds)
     if case.get("points") is None:
         bnds = [leaf_bounds[i] for i in ids]
-        if oracle.box_size(bnds) > 20000:      # only reachable for specs generated without a point sample
-            bnds = [(lo, min(hi, lo + 3)) for lo, hi in bnds]
+        if oracle.box_size(bnds) > 20000:      # only reachable for enumerated families with a wide leaf
+            import itertools
+            hints = thresholds(case["model"]) if "model" in case else set()
+            cand = []
+            for lo, hi in bnds:
+                if hi - lo <= 12:
+                    cand.append(list(range(lo, hi + 1)))
+                else:
+                    vs = {lo, lo + 1, hi - 1, hi, -1, 0, 1, 2}
+                    for h in hints:
+                        vs.update((h - 1, h, h + 1))
+                    cand.append(sorted(v for v in vs if lo <= v <= hi)[:14])
+            for p_ in itertools.product(*cand):
+                yield dict(zip(ids, p_))
+            return
         yield from oracle.box_points(ids, bnds)
     else:
         spec_ids = sorted(oracle.spec_leaves(case["model"]))
